@@ -4,6 +4,7 @@ import (
 	"bytes"
 	"errors"
 	"fmt"
+	"github.com/trustbloc/sidetree-go/pkg/util/ecsigner"
 	"strings"
 
 	docdid "github.com/trustbloc/did-go/doc/did"
@@ -64,6 +65,16 @@ func (s *apiSigner) PublicKeyJWK() *jws.JWK { return s.jwk }
 
 func (lk *libKey) signer(kid string) *apiSigner {
 	return &apiSigner{libSigner: signerFor(lk.k, kid), jwk: lk.jwk}
+}
+
+// c08Signer: the "alg" header a signer announces is any of the configured algorithm names - the protocol does not tie the name to
+// the key's curve (the shipped configuration allows P-384 keys and no ES384), so a quarter of the EC signers announce another
+// allowed name than the one matching their curve.
+func c08Signer(r *fw.Rand, k *gen.Key, kid string) libSigner {
+	if k.Type != gen.Ed25519 && r.Chance(1, 4) {
+		return ecsigner.New(k.EC, fw.Pick(r, []string{"ES256", "ES384", "ES256K", "ES512"}), kid)
+	}
+	return signerFor(k, kid)
 }
 
 func runC08(r *fw.Runner) {
@@ -352,7 +363,7 @@ func c08Builders(c *fw.Case) {
 			pl := &patchList{Patches: safePatchList(r, lc.model.Doc, 3)}
 			lp, _ := sut.ToPatches(pl.Patches)
 			ui := &client.UpdateRequestInfo{DidSuffix: sfx, Patches: lp, UpdateCommitment: commit(next), UpdateKey: upd.jwk, MultihashCode: code,
-				Signer: signerFor(upd.k, kid(r)), RevealValue: reveal(upd)}
+				Signer: c08Signer(r, upd.k, kid(r)), RevealValue: reveal(upd)}
 			ui.AnchorFrom, ui.AnchorUntil = window()
 			req, err := client.NewUpdateRequest(ui)
 			c.Count("builder-requests", 1)
@@ -376,7 +387,7 @@ func c08Builders(c *fw.Case) {
 	nextU, _ := newLibKey(r, kt)
 	nextR, _ := newLibKey(r, kt)
 	ri := &client.RecoverRequestInfo{DidSuffix: sfx, RecoveryKey: rec.jwk, RecoveryCommitment: commit(nextR), UpdateCommitment: commit(nextU),
-		MultihashCode: code, Signer: signerFor(rec.k, kid(r)), RevealValue: reveal(rec)}
+		MultihashCode: code, Signer: c08Signer(r, rec.k, kid(r)), RevealValue: reveal(rec)}
 	rf := oracle.ValidFacts("recover")
 	if r.Bool() {
 		d := c14Doc(r)
@@ -408,7 +419,7 @@ func c08Builders(c *fw.Case) {
 		return
 	}
 	// --- deactivate
-	di := &client.DeactivateRequestInfo{DidSuffix: sfx, RecoveryKey: rec.jwk, Signer: signerFor(rec.k, kid(r)), RevealValue: reveal(rec)}
+	di := &client.DeactivateRequestInfo{DidSuffix: sfx, RecoveryKey: rec.jwk, Signer: c08Signer(r, rec.k, kid(r)), RevealValue: reveal(rec)}
 	di.AnchorFrom, di.AnchorUntil = window()
 	req, err = client.NewDeactivateRequest(di)
 	c.Count("builder-requests", 1)
@@ -632,12 +643,20 @@ func c08Client(c *fw.Case) {
 	}
 	op, _ := lc.st.Parser.Parse(lc.ns, last())
 	did := lc.ns + ":" + op.UniqueSuffix
+	recCommitStr := commit(rec) // the recovery commitment as installed (under the algorithm in force when it was made)
 
 	doUpdates := func() bool {
 		for i, n := 0, r.Intn(3); i < n; i++ {
 			next, _ := newLibKey(r, kt)
+			oldUpdCommit := commit(upd) // the commitment being revealed keeps the algorithm it was made with
+			savedCode, savedWant, savedSig := code, lc.wantDeltaCode, optsig
+			if r.Chance(1, 4) {
+				code = 37 - code // the controller migrates to the other hash algorithm with this update
+				optsig += "M"
+				lc.wantDeltaCode = uint64(code)
+			}
 			uopts := []update.Option{update.WithSigner(upd.signer(kid(r))), update.WithNextUpdatePublicKey(next.k.Public()),
-				update.WithOperationCommitment(commit(upd)), update.WithMultiHashAlgorithm(code)}
+				update.WithOperationCommitment(oldUpdCommit), update.WithMultiHashAlgorithm(code)}
 			var ps []interface{}
 			var rmAka, rmKeys, rmSvcs []string
 			var addAka, addSvcs, addKeys []interface{}
@@ -692,6 +711,7 @@ func c08Client(c *fw.Case) {
 				ps = append(ps, map[string]interface{}{"action": "add-public-keys", "publicKeys": addKeys})
 			}
 			if len(ps) == 0 {
+				code, lc.wantDeltaCode, optsig = savedCode, savedWant, savedSig // no operation, no migration
 				continue
 			}
 			before := len(rc.reqs)
@@ -716,7 +736,7 @@ func c08Client(c *fw.Case) {
 	// --- recover
 	nextU, _ := newLibKey(r, kt)
 	nextR, _ := newLibKey(r, kt)
-	oldCommit := commit(rec) // the commitment being revealed keeps the algorithm it was made with
+	oldCommit := recCommitStr // the commitment being revealed keeps the algorithm it was made with
 	if r.Chance(1, 3) {
 		code = 37 - code // the controller migrates to the other hash algorithm with this recover
 		optsig += "m"
@@ -772,11 +792,12 @@ func c08Client(c *fw.Case) {
 		return
 	}
 	upd, rec = nextU, nextR
+	recCommitStr = commit(rec)
 	if !doUpdates() {
 		return
 	}
 	before = len(rc.reqs)
-	err = cl.DeactivateDID(did, deactivate.WithSigner(rec.signer(kid(r))), deactivate.WithOperationCommitment(commit(rec)))
+	err = cl.DeactivateDID(did, deactivate.WithSigner(rec.signer(kid(r))), deactivate.WithOperationCommitment(recCommitStr))
 	if len(rc.reqs) != before+1 {
 		c.Failf("client-error:deactivate", map[string]interface{}{"err": fmt.Sprint(err)}, "DeactivateDID did not produce a request: %v", err)
 		return
